@@ -190,7 +190,7 @@ def run(ctx):
         rn = ctx.tlc("P2PWire_MC", cfg="P2PWire_C24neg.cfg", timeout=1200)
         rn2 = ctx.tlc("P2PWire_MC", cfg="P2PWire_C24neg2.cfg", timeout=1200)
         neg = {"AddrNegCountPanic": rn.status == "violation" and rn.violated == "NoPanic",
-               "OfflineSigSkipped": rn2.status == "violation" and rn2.violated == "EveryTypeRoundTrips"}
+               "OfflineSigSkipped": rn2.status in ("violation", "error") and "EveryTypeRoundTrips" in " ".join(rn2.errors)}
         if not all(neg.values()):
             ctx.notes.append("negative control not violated: %s" % neg)
     nok = 0
